@@ -250,6 +250,18 @@ Record rt_out := mkOut {
 
 Definition cancelled_before (cn : cancel) (x : Z) : bool :=
   match cn with Some (tc, _) => tc <? x | None => false end.
+(* the context has ended at instant x *)
+Definition ended_at (cn : cancel) (x : Z) : bool :=
+  match cn with Some (tc, _) => tc <=? x | None => false end.
+(* does a pause that would end at instant x end the call with the context's error?
+   The select of RoundTrip returns when the context ends first; when the timer fires at the
+   very instant the context has ended (always for a zero pause) select picks either branch:
+   [checked] = the timer branch re-checks ctx.Err() (then the call ends either way);
+   otherwise the model follows the timer branch (the loop goes on). *)
+Definition pause_cancelled_gen (checked : bool) (cn : cancel) (x : Z) : bool :=
+  if checked then ended_at cn x else cancelled_before cn x.
+(* the source as it is now: Generated.GC17.rt_checks_ctx_after_timer is re-read from client.go *)
+Definition pause_cancelled := pause_cancelled_gen rt_checks_ctx_after_timer.
 Definition cancel_outcome (cn : cancel) : outcome :=
   match cn with Some (_, dl) => ctx_outcome dl | None => OCanceled end.
 Definition cancel_clock (cn : cancel) (t : Z) : Z :=
@@ -257,12 +269,13 @@ Definition cancel_clock (cn : cancel) (t : Z) : Z :=
 
 (* one attempt against the server: what it receives, what comes back and when.
    A context that ends while the server is busy makes the base transport return
-   the context's error at that instant. *)
+   the context's error at that instant; a context that has already ended when the
+   request arrives makes it return that error at once (as net/http's transport does). *)
 Definition serve (cn : cancel) (bd : body) (st : bstate) (bh : beh) (t : Z)
   : str * bstate * outcome * Z :=
   let '(got, rest) := take_body (b_read bh) (s_rest st) in
   let st' := mkSt rest (s_calls st) in
-  if cancelled_before cn (t + b_lat bh) then (got, st', cancel_outcome cn, cancel_clock cn t)
+  if ended_at cn t || cancelled_before cn (t + b_lat bh) then (got, st', cancel_outcome cn, cancel_clock cn t)
   else (got, st', b_out bh, t + b_lat bh).
 
 Inductive step_res :=
@@ -288,7 +301,7 @@ Definition rt_step (p : policy) (cn : cancel) (bd : body)
       | RwNoGetBody | RwGetBodyErr => stop
       | RwOk st2 =>
         let tr2 := tr1 ++ [EPause t1 d] in
-        if cancelled_before cn (t1 + d) then Done (mkOut RCtx st2 sc' (cancel_clock cn t1) tr2)
+        if pause_cancelled cn (t1 + d) then Done (mkOut RCtx st2 sc' (cancel_clock cn t1) tr2)
         else Next st2 sc' (t1 + d) tr2
       end
   end.
